@@ -1,3 +1,305 @@
-import Tahoe.Config.Parse
+import Tahoe.Config.Lemmas
+/-!
+# C48 — configuration values parse to their documented meaning
+
+Property theorems over the model `Tahoe/Config/Parse.lean` (the code as it is after
+fixes/C48-size-whitespace.diff and fixes/C48-date-strict.diff); the documented tables and grammar are in
+`Tahoe/Config/Doc.lean`, helper lemmas in `Tahoe/Config/Lemmas.lean`.
+-/
 namespace Tahoe.C48
+open Tahoe.Config Tahoe.Generated
+
+/-! ## The source still says what the model transcribes (extracted constants pinned) -/
+
+/-- the pattern `parse_duration` builds from `ParseDurationUnitFormat` -/
+theorem duration_regex_pinned :
+    Config.duration_regex = "^\\s*(\\d+)\\s*(s|second|seconds|day|days|mo|month|months|year|years)\\s*$" := by decide
+
+/-- `parse_abbreviated_size` matches `s.upper()` with `re.match` against this pattern (whitespace before the suffix allowed) -/
+theorem size_regex_pinned :
+    Config.size_regex_fn = "match" ∧ Config.size_regex = "^(\\d+)\\s*([KMGTPE]?[I]?[B]?)$" := by decide
+
+/-- `parse_date` itself applies `re.fullmatch` with the bare `YYYY-MM-DD` pattern -/
+theorem date_regex_pinned :
+    Config.date_regex_fn = "fullmatch" ∧ Config.date_regex = "(\\d{4})-(\\d{2})-(\\d{2})" := by decide
+
+/-- `time_map`, in alternation order, is the documented table -/
+theorem duration_units_pinned : Config.duration_units = docDurationUnits := by decide
+
+theorem second_is_1 : ∀ w ∈ [[115], [115, 101, 99, 111, 110, 100], [115, 101, 99, 111, 110, 100, 115]],
+    lookupWord Config.duration_units (wordSyms w) = some 1 := by decide
+
+theorem day_is_86400 : ∀ w ∈ [[100, 97, 121], [100, 97, 121, 115]],
+    lookupWord Config.duration_units (wordSyms w) = some 86400 := by decide
+
+/-- "mo", "month", "months" -/
+theorem month_is_31_days : ∀ w ∈ [[109, 111], [109, 111, 110, 116, 104], [109, 111, 110, 116, 104, 115]],
+    lookupWord Config.duration_units (wordSyms w) = some (31 * 86400) := by decide
+
+/-- "year", "years" -/
+theorem year_is_365_days : ∀ w ∈ [[121, 101, 97, 114], [121, 101, 97, 114, 115]],
+    lookupWord Config.duration_units (wordSyms w) = some (365 * 86400) := by decide
+
+/-- the multiplier dict: scale letter number `i`, optional "I" → 1000^i resp. 1024^i -/
+theorem size_multipliers_pinned : ∀ i ∈ [0, 1, 2, 3, 4, 5, 6], ∀ bin : Bool,
+    lookupWord Config.size_multipliers (wordSyms (sizeSuffix i bin false)) = some (sizeBase bin ^ i) := by decide
+
+/-! ## Durations -/
+
+/-- **documented_spellings (durations).** Any amount of surrounding and separating whitespace, any
+    number (digit string `ds`), any documented unit in any mix of upper and lower case: the result is
+    number × (1 | 86400 | 31·86400 | 365·86400). -/
+theorem documented_spellings_duration (pre mid post : List Sym) (ds : List (Fin 10)) (w : List Sym)
+    (word : List Nat) (k : Nat)
+    (hpre : pre.all isWs = true) (hmid : mid.all isWs = true) (hpost : post.all isWs = true) (hds : ds ≠ [])
+    (hu : (word, k) ∈ docDurationUnits) (hw : w.map lowerSym = wordSyms word) :
+    parseDuration (pre ++ ds.map Sym.dig ++ mid ++ w ++ post) = .ok (num ds * k) := by
+  have hwne : w ≠ [] := by
+    intro h; subst h
+    simp only [docDurationUnits, List.mem_cons, Prod.mk.injEq, List.not_mem_nil, or_false] at hu
+    rcases hu with h | h | h | h | h | h | h | h | h | h <;> (rw [h.1] at hw; simp [wordSyms] at hw)
+  -- the part after the number does not start with a digit; the unit does not start with whitespace
+  have hwhead : headNotDig (w ++ post) = true ∧ headNotWs (w ++ post) = true := by
+    cases w with
+    | nil => exact absurd rfl hwne
+    | cons x xs =>
+      cases word with
+      | nil => simp [wordSyms] at hw
+      | cons c cs =>
+        simp only [wordSyms, List.map_cons, List.cons.injEq] at hw
+        have := not_isWs_of_lowerSym hw.1
+        cases x <;> simp_all [headNotDig, headNotWs, lowerSym]
+  have hdhead : headNotWs (ds.map Sym.dig ++ (mid ++ (w ++ post))) = true := by
+    cases ds with
+    | nil => exact absurd rfl hds
+    | cons d ds => simp [headNotWs, isWs]
+  have e : pre ++ ds.map Sym.dig ++ mid ++ w ++ post = pre ++ (ds.map Sym.dig ++ (mid ++ (w ++ post))) := by
+    simp [List.append_assoc]
+  have hlook : lookupWord docDurationUnits (wordSyms word) = some k := by
+    simp only [docDurationUnits, List.mem_cons, Prod.mk.injEq, List.not_mem_nil, or_false] at hu
+    rcases hu with h | h | h | h | h | h | h | h | h | h <;> (rw [h.1, h.2]; decide)
+  have hds' : ds.isEmpty = false := by cases ds <;> simp_all
+  unfold parseDuration parseDurationWith
+  simp only [duration_units_pinned, e, dropWs_append_ws _ _ hpre, dropWs_of_headNotWs _ hdhead,
+    takeDigits_map_dig _ _ (headNotDig_ws_append _ _ hmid hwhead.1), hds', Bool.false_eq_true, if_false,
+    dropWs_append_ws _ _ hmid, dropWs_of_headNotWs _ hwhead.2,
+    findSome_tryUnit docDurationUnits w word post hw hpost k hu, hw, hlook]
+
+example : parseDuration [.ws, .dig 1, .dig 2, .ws, .ws, .asc 77, .asc 111, .asc 78, .asc 116, .asc 72, .asc 115, .nl]
+    = .ok (12 * (31 * 86400)) := by decide   -- " 12  MoNtHs\n"
+
+/-- **accepted_implies_grammar (durations).** Whatever `parse_duration` accepts is whitespace, a
+    non-empty digit string, whitespace, an ASCII case variant of a documented unit, whitespace — and
+    the value is number × that unit's documented length.  Nothing else is read as a duration. -/
+theorem accepted_implies_grammar_duration (s : List Sym) (v : Nat) (h : parseDuration s = .ok v) :
+    ∃ pre ds mid w post word k,
+      s = pre ++ ds.map Sym.dig ++ mid ++ w ++ post ∧
+      pre.all isWs = true ∧ mid.all isWs = true ∧ post.all isWs = true ∧ ds ≠ [] ∧
+      (word, k) ∈ docDurationUnits ∧ w.map lowerSym = wordSyms word ∧ v = num ds * k := by
+  unfold parseDuration parseDurationWith at h
+  simp only [duration_units_pinned] at h
+  obtain ⟨pre, hs1, hpre⟩ := dropWs_spec s
+  obtain ⟨hs2, -⟩ := takeDigits_spec (dropWs s)
+  obtain ⟨mid, hs3, hmid⟩ := dropWs_spec (takeDigits (dropWs s)).2
+  generalize hds : (takeDigits (dropWs s)).1 = ds at h hs2
+  generalize hr3 : dropWs (takeDigits (dropWs s)).2 = r3 at h hs3
+  split at h
+  · simp at h
+  · rename_i hne
+    split at h
+    · simp at h
+    · rename_i m hm
+      split at h
+      · rename_i k hk
+        obtain ⟨p, -, hp⟩ := List.exists_of_findSome?_eq_some hm
+        unfold tryUnit at hp
+        split at hp
+        · rename_i m' rest hmatch
+          split at hp
+          · rename_i hrest
+            simp only [Option.some.injEq] at hp
+            subst hp
+            obtain ⟨hr, -⟩ := matchWordCI_spec p.1 r3 m' rest hmatch
+            obtain ⟨word, hmem, hword⟩ := lookupWord_spec _ _ _ hk
+            refine ⟨pre, ds, mid, m', rest, word, k, ?_, hpre, hmid, hrest, ?_, hmem, hword.symm, ?_⟩
+            · rw [hs1, hs2, hs3, hr]; simp [List.append_assoc]
+            · intro hnil; simp [hnil] at hne
+            · simp only [Res.ok.injEq] at h; exact h.symm
+          · simp at hp
+        · simp at hp
+      · simp at h
+
+example : parseDuration [.dig 6, .dig 0, .ws, .asc 100, .asc 97, .asc 121, .asc 115] = .ok (60 * 86400) := by decide  -- "60 days"
+
+/-- 'ſ' (U+017F) is matched by the regex (IGNORECASE) but is not a key of `time_map`: the call ends
+    in `KeyError`, which is still a rejection ("1ſ"). -/
+theorem long_s_rejected : parseDuration [.dig 1, .longS] = .keyError := by decide
+
+/-! ## Sizes -/
+
+/-- **documented_spellings (sizes).** number, optional whitespace, optional scale letter (K M G T P E,
+    number `i`), optional "i", optional "B", in any case (`w.map upperSym` is the upper-case suffix):
+    the result is number × 1000^i, resp. number × 1024^i with the "i". -/
+theorem documented_spellings_size (ds : List (Fin 10)) (mid w : List Sym) (i : Nat) (bin hasB : Bool)
+    (hds : ds ≠ []) (hmid : mid.all isWs = true) (hi : i ≤ 6)
+    (hw : w.map upperSym = wordSyms (sizeSuffix i bin hasB)) :
+    parseSize (ds.map Sym.dig ++ mid ++ w) = .ok (num ds * sizeBase bin ^ i) := by
+  have hne : (ds.map Sym.dig ++ mid ++ w).isEmpty = false := by cases ds <;> simp_all
+  have hds' : ds.isEmpty = false := by cases ds <;> simp_all
+  have hcore : sizeMult Config.size_multipliers (wordSyms (sizeSuffix i bin hasB)) = .ok (sizeBase bin ^ i) := by
+    have : i = 0 ∨ i = 1 ∨ i = 2 ∨ i = 3 ∨ i = 4 ∨ i = 5 ∨ i = 6 := by omega
+    rcases this with rfl | rfl | rfl | rfl | rfl | rfl | rfl <;> cases bin <;> cases hasB <;> decide
+  have hhead : headNotDig (wordSyms (sizeSuffix i bin hasB)) = true ∧ headNotWs (wordSyms (sizeSuffix i bin hasB)) = true := by
+    have h1 := headNotDig_wordSyms (sizeSuffix i bin hasB) [] rfl
+    have h2 := headNotWs_wordSyms (sizeSuffix i bin hasB) [] rfl
+    simp only [List.append_nil] at h1 h2
+    exact ⟨h1, h2⟩
+  unfold parseSize parseSizeWith
+  rw [if_neg (by rw [hne]; simp)]
+  simp only [Bool.false_eq_true, if_false, List.map_append, map_upperSym_dig, map_upperSym_ws mid hmid, hw,
+    List.append_assoc, takeDigits_map_dig _ _ (headNotDig_ws_append _ _ hmid hhead.1), hds',
+    dropWs_append_ws _ _ hmid, dropWs_of_headNotWs _ hhead.2, hcore]
+
+example : parseSize [.dig 1, .dig 0, .dig 2, .dig 4, .ws, .asc 75, .asc 105] = .ok (1024 * 1024 ^ 1) := by decide  -- "1024 Ki"
+example : parseSize [.dig 1, .dig 0, .dig 0, .ws, .asc 77] = .ok (100 * 1000 ^ 2) := by decide                   -- "100 M"
+
+/-- **accepted_implies_grammar (sizes).** Whatever `parse_abbreviated_size` accepts is a non-empty
+    digit string, whitespace, a spelling `w` whose `str.upper()` is a documented suffix (so 'ı' U+0131
+    counts as "i"), optionally one final newline (`$`) — and the value is number × 1000^i resp. 1024^i. -/
+theorem accepted_implies_grammar_size (s : List Sym) (v : Nat) (h : parseSize s = .ok v) :
+    ∃ ds mid w tail i bin hasB,
+      s = ds.map Sym.dig ++ mid ++ w ++ tail ∧ ds ≠ [] ∧ mid.all isWs = true ∧ (tail = [] ∨ tail = [.nl]) ∧
+      i ≤ 6 ∧ w.map upperSym = wordSyms (sizeSuffix i bin hasB) ∧ v = num ds * sizeBase bin ^ i := by
+  unfold parseSize parseSizeWith at h
+  dsimp only at h
+  split at h
+  · simp at h
+  · obtain ⟨hu1, -⟩ := takeDigits_spec (s.map upperSym)
+    obtain ⟨mid', hu2, hmid'⟩ := dropWs_spec (takeDigits (s.map upperSym)).2
+    generalize hds : (takeDigits (s.map upperSym)).1 = ds at h hu1
+    generalize hr2 : dropWs (takeDigits (s.map upperSym)).2 = r2 at h hu2
+    split at h
+    · simp at h
+    · rename_i hne
+      split at h
+      · rename_i k hk
+        simp only [Res.ok.injEq] at h
+        obtain ⟨a, b, c, tail, hr, ha, hb, hc, htail, hlook⟩ := sizeMult_spec _ _ _ hk
+        -- pull the decomposition of `s.upper()` back to `s`
+        have hu : s.map upperSym = ds.map Sym.dig ++ (mid' ++ (wordSyms (a ++ b ++ c) ++ tail)) := by
+          rw [hu1, hu2, hr]
+        obtain ⟨s1, t1, e1, m1, n1⟩ := List.map_eq_append_iff.mp hu
+        obtain ⟨s2, t2, e2, m2, n2⟩ := List.map_eq_append_iff.mp n1
+        obtain ⟨s3, s4, e3, m3, m4⟩ := List.map_eq_append_iff.mp n2
+        have hs1 := map_upperSym_eq_dig s1 ds m1
+        have hs2 : s2.all isWs = true := all_isWs_of_map_upperSym s2 (by rw [m2]; exact hmid')
+        have hs4 : s4 = [] ∨ s4 = [.nl] := by
+          rcases htail with ht | ht
+          · left; rw [ht] at m4; simpa using m4
+          · right; rw [ht] at m4
+            cases s4 with
+            | nil => simp at m4
+            | cons x xs =>
+              simp only [List.map_cons, List.cons.injEq, List.map_eq_nil_iff] at m4
+              rw [upperSym_eq_nl m4.1, m4.2]
+        obtain ⟨i, bin, hasB, hi, hsfx, hkv⟩ := suffix_enum a b c k ha hb hc hlook
+        refine ⟨ds, s2, s3, s4, i, bin, hasB, ?_, ?_, hs2, hs4, hi, ?_, ?_⟩
+        · rw [e1, e2, e3, hs1]; simp [List.append_assoc]
+        · intro hnil; simp [hnil] at hne
+        · rw [m3, hsfx]
+        · rw [← h, hkv]
+      · rename_i hnot; exact absurd h (hnot v)
+
+/-! ## Dates -/
+
+/-- **documented_spellings (dates).** `YYYY-MM-DD` naming a day that exists is accepted and read as the
+    number of days from 1970-01-01 to that day, times 86400. -/
+theorem documented_spellings_date (a b c d e f g h : Fin 10)
+    (hv : validDate (num [a, b, c, d]) (num [e, f]) (num [g, h]) = true) :
+    parseDate [.dig a, .dig b, .dig c, .dig d, .asc 45, .dig e, .dig f, .asc 45, .dig g, .dig h]
+      = .ok (((ordinal (num [a, b, c, d]) (num [e, f]) (num [g, h]) : Int) - (epochOrd : Int)) * 86400) := by
+  simp [parseDate, hv]
+
+-- the three dates of docs/garbage-collection.rst
+example : parseDate [.dig 2, .dig 0, .dig 0, .dig 9, .asc 45, .dig 0, .dig 1, .asc 45, .dig 1, .dig 6] = .ok 1232064000 := by decide
+example : parseDate [.dig 2, .dig 0, .dig 0, .dig 8, .asc 45, .dig 0, .dig 2, .asc 45, .dig 0, .dig 2] = .ok 1201910400 := by decide
+example : parseDate [.dig 2, .dig 0, .dig 0, .dig 7, .asc 45, .dig 1, .dig 2, .asc 45, .dig 2, .dig 5] = .ok 1198540800 := by decide
+
+/-- **date_midnight_utc** (and soundness for dates).  Whatever `parse_date` accepts is exactly ten
+    characters `YYYY-MM-DD` naming an existing day, and the value is midnight UTC at the beginning of
+    that day: a multiple of 86400, namely 86400 × (days since 1970-01-01).  No time of day, no
+    trailing text and no day that does not exist is accepted. -/
+theorem date_midnight_utc (s : List Sym) (t : Int) (ht : parseDate s = .ok t) :
+    ∃ a b c d e f g h : Fin 10,
+      s = [.dig a, .dig b, .dig c, .dig d, .asc 45, .dig e, .dig f, .asc 45, .dig g, .dig h] ∧
+      validDate (num [a, b, c, d]) (num [e, f]) (num [g, h]) = true ∧
+      t = 86400 * ((ordinal (num [a, b, c, d]) (num [e, f]) (num [g, h]) : Int) - (epochOrd : Int)) ∧
+      t % 86400 = 0 := by
+  unfold parseDate at ht
+  split at ht
+  · rename_i a b c d e f g h
+    dsimp only at ht
+    split at ht
+    · rename_i hv
+      simp only [Res.ok.injEq] at ht
+      refine ⟨a, b, c, d, e, f, g, h, rfl, hv, by omega, by omega⟩
+    · simp at ht
+  · simp at ht
+
+example : parseDate [.dig 2, .dig 0, .dig 0, .dig 9, .asc 45, .dig 0, .dig 2, .asc 45, .dig 3, .dig 1] = .valueError := by decide  -- 2009-02-31
+example : parseDate [.dig 2, .dig 0, .dig 0, .dig 0, .asc 45, .dig 0, .dig 2, .asc 45, .dig 2, .dig 9] = .ok 951782400 := by decide  -- 2000-02-29
+
+/-- the day count is anchored at the epoch … -/
+theorem ordinal_epoch : ordinal 1970 1 1 = epochOrd := by decide
+
+/-- … and advances by exactly one from each existing day to the next calendar day (month lengths, leap
+    years every 4th year except centuries not divisible by 400).  Together with `ordinal_epoch` this
+    determines `ordinal`, hence the timestamp of every date, uniquely: "days since 1970-01-01". -/
+theorem ordinal_next_day (y m d : Nat) (hv : validDate y m d = true) :
+    validDate (nextDay y m d).1 (nextDay y m d).2.1 (nextDay y m d).2.2 = true ∧
+    ordinal (nextDay y m d).1 (nextDay y m d).2.1 (nextDay y m d).2.2 = ordinal y m d + 1 := by
+  simp only [validDate, Bool.and_eq_true, decide_eq_true_eq] at hv
+  obtain ⟨⟨⟨⟨hy, hm1⟩, hm12⟩, hd1⟩, hd⟩ := hv
+  have hyear := daysBeforeYear_succ y hy
+  have hm : m = 1 ∨ m = 2 ∨ m = 3 ∨ m = 4 ∨ m = 5 ∨ m = 6 ∨ m = 7 ∨ m = 8 ∨ m = 9 ∨ m = 10 ∨ m = 11 ∨ m = 12 := by omega
+  rcases hm with rfl | rfl | rfl | rfl | rfl | rfl | rfl | rfl | rfl | rfl | rfl | rfl <;>
+    cases hl : isLeap y <;>
+    simp [daysInMonth, hl] at hd <;>
+    simp [nextDay, daysInMonth, daysBeforeMonth, ordinal, validDate, hl] <;>
+    split <;> simp_all <;> omega
+
+example : nextDay 2008 2 29 = (2008, 3, 1) ∧ validDate 2008 2 29 = true := by decide
+
+/-! ## Printed sizes
+
+Full statement (property text: "abbreviated sizes that the node prints parse back to the same value"):
+`∀ si s, parseSize (abbreviateSpace si s) = .ok s`.  It is false of the code for every `s ≥ 1024`
+(`printed_large_rejected`; witness `print_then_parse_counterexample`; known finding
+`print-parse-decimal-rejected`), and could not hold exactly there in any case because printing rounds to
+two decimals.  What is true, and proved, is the guarded statement for `s < 1024`. -/
+
+/-- **print_then_parse (partial: sizes below 1024, printed `"%d B"`).**  Guard `s < 1024` is exactly the
+    branch of `abbreviate_space` that prints an integer. -/
+theorem print_then_parse_partial (si : Bool) (s : Nat) (hs : s < 1024) :
+    parseSize (abbreviateSpace si s) = .ok s := by
+  have h := documented_spellings_size (digitsOf s) [.ws] [.asc 66] 0 false true (digitsOf_ne_nil s) rfl (by decide) (by decide)
+  simp only [abbreviateSpace, hs, if_true]
+  rw [show (digitsOf s).map Sym.dig ++ [Sym.ws, Sym.asc 66] = (digitsOf s).map Sym.dig ++ [Sym.ws] ++ [Sym.asc 66] by simp,
+    h, num_digitsOf]
+  simp
+
+example : abbreviateSpace true 1023 = [.dig 1, .dig 0, .dig 2, .dig 3, .ws, .asc 66] := by decide
+
+/-- negation witness of the full statement: 1024 is printed "1.02 kB", which is rejected -/
+theorem print_then_parse_counterexample :
+    abbreviateSpace true 1024 = [.dig 1, .asc 46, .dig 0, .dig 2, .ws, .asc 107, .asc 66] ∧
+    parseSize (abbreviateSpace true 1024) = .valueError := by decide
+
+/-- in fact no size from 1024 up parses back, in either mode: the printed text has a decimal point -/
+theorem printed_large_rejected (si : Bool) (s : Nat) (hs : 1024 ≤ s) :
+    parseSize (abbreviateSpace si s) = .valueError := by
+  have hs' : ¬ s < 1024 := by omega
+  simp only [abbreviateSpace, hs', if_false, List.append_assoc, List.cons_append, List.nil_append]
+  exact parseSize_digits_dot _ _ (digitsOf_ne_nil _) _
+
 end Tahoe.C48
